@@ -42,6 +42,115 @@ pub struct C11Case {
     /// the end
     #[serde(default)]
     pub invalid_first: bool,
+    /// instead of the long history: three live subscriptions, then the subscription identifier
+    /// counter is moved here through the hook (as if that many subscribe() calls had been made)
+    /// and eight more subscribes follow from alternating clones, some left unacknowledged
+    #[serde(default)]
+    pub sub_counter: Option<u32>,
+}
+
+/// Largest value a Subscription Identifier can take (variable byte integer).
+const SUB_ID_MAX: u64 = 268_435_455;
+/// Two subscribe() calls fewer than this many calls apart must get different identifiers. The
+/// identifier space has 2^28 - 1 values, so "its own identifier" cannot hold for ever; how much of
+/// the space an allocation policy must use before it comes round is not stated, so only a
+/// collision within an eighth of it is reported (a counter stepping by 3 passes, one folded
+/// into the three-byte identifiers does not).
+const SUB_ID_WINDOW: u64 = 1 << 25;
+
+/// The far end of the subscription identifier space, reached through the hook.
+fn run_c11_sub_ids(start: u32, salt: u32) -> Outcome {
+    let mut o = Outcome::ok();
+    o.class("subscription-identifier-space");
+    o.nontrivial = true;
+    let plan = WritePlan::default();
+    let mut w = World::new();
+    if connect_and_run(&mut w, ConnectSpec::default(), &default_connack(), &plan).is_err() {
+        o.fail = Some(Failure { sig: "HARNESS/prologue".into(), msg: format!("{:?}", w.panics) });
+        return o;
+    }
+    w.clone_handle(0);
+    let mut tr = Tracker::new();
+    tr.skip_existing(&mut w);
+    // (virtual allocation index, op)
+    let mut allocs: Vec<(u64, usize)> = vec![];
+    let mut sub = |w: &mut World, tr: &mut Tracker, h: usize, tag: usize, ack: bool, index: u64, o: &mut Outcome| -> bool {
+        w.tick();
+        let Some(op) = w.start_op(h, OpSpec::Subscribe(tagged_subscribe(tag, 1))) else {
+            return false;
+        };
+        settle(w, &plan, true);
+        if let Some((who, m)) = w.panics.first() {
+            o.fail = Some(Failure {
+                sig: "C11/allocation-panicked/subscription-identifier".into(),
+                msg: format!("subscribe() number {index} on this client (counter moved through the hook) panicked in {who}: {m}"),
+            });
+            return false;
+        }
+        tr.update(w);
+        allocs.push((index, op));
+        if ack {
+            if let Some(pid) = tr.pid(op) {
+                feed_packet(w, &rc::Packet::Suback(rc::AckList { pid, reasons: vec![0], ..Default::default() }), &rc::Form::canonical());
+                settle(w, &plan, true);
+                w.make_stream(op);
+            }
+        }
+        true
+    };
+    for k in 0..3usize {
+        if !sub(&mut w, &mut tr, k % 2, k, true, 1 + k as u64, &mut o) {
+            return o;
+        }
+    }
+    if !w.set_next_sub_id(start) {
+        o.fail = Some(Failure { sig: "HARNESS/no-handle".into(), msg: String::new() });
+        return o;
+    }
+    for j in 0..8usize {
+        let ack = (salt >> j) & 1 == 0;
+        if !sub(&mut w, &mut tr, (j + salt as usize) % 2, 10 + j, ack, start as u64 + j as u64, &mut o) {
+            return o;
+        }
+    }
+    drop(sub);
+    // the wire: every SUBSCRIBE decodes (identifier a non-zero variable byte integer), and the
+    // identifiers of calls less than SUB_ID_WINDOW calls apart differ
+    w.sync_wire();
+    if let Some(bad) = w.pkts.iter().find(|p| p.decoded.is_err()) {
+        o.fail = Some(Failure { sig: "C11/subscription-identifier-invalid-on-the-wire".into(), msg: format!("a packet starting {:#04x} written after the counter was moved to {start} does not decode: {:?}", bad.first, bad.decoded) });
+        return o;
+    }
+    let ids: Vec<(u64, Option<u32>)> = allocs.iter().map(|(i, op)| (*i, tr.sub_id(*op))).collect();
+    for (i, id) in &ids {
+        match id {
+            None => {
+                o.fail = Some(Failure { sig: "C11/subscribe-not-written".into(), msg: format!("subscribe() number {i}: no SUBSCRIBE with a subscription identifier on the wire; identifiers {ids:?}") });
+                return o;
+            }
+            Some(0) => {
+                o.fail = Some(Failure { sig: "C11/subscription-identifier-zero".into(), msg: format!("subscribe() number {i}; identifiers {ids:?}") });
+                return o;
+            }
+            Some(v) if *v as u64 > SUB_ID_MAX => {
+                o.fail = Some(Failure { sig: "C11/subscription-identifier-invalid-on-the-wire".into(), msg: format!("subscribe() number {i} got {v}; identifiers {ids:?}") });
+                return o;
+            }
+            _ => {}
+        }
+    }
+    for (a, (ia, ida)) in ids.iter().enumerate() {
+        for (ib, idb) in ids.iter().skip(a + 1) {
+            if ida == idb && ib.abs_diff(*ia) < SUB_ID_WINDOW {
+                o.fail = Some(Failure {
+                    sig: "C11/subscription-identifier-not-unique".into(),
+                    msg: format!("subscribe() calls number {ia} and {ib} on one client both got subscription identifier {ida:?} (counter moved to {start} through the hook after three subscribes); all: {ids:?}"),
+                });
+                return o;
+            }
+        }
+    }
+    o
 }
 
 pub struct C11;
@@ -72,7 +181,7 @@ impl Property for C11 {
                 0..40,
             ),
         )
-            .prop_map(|(total, handles, salt, keep)| C11Case { total, handles, salt, keep, threads: false, history: None, resume_after: false, invalid_first: false })
+            .prop_map(|(total, handles, salt, keep)| C11Case { total, handles, salt, keep, threads: false, history: None, resume_after: false, invalid_first: false, sub_counter: None })
             .boxed();
         let long = (s, prop::bool::weighted(0.25), any::<bool>())
             .prop_map(|(mut c, t, r)| {
@@ -105,7 +214,7 @@ impl Property for C11 {
                 // several clones from the outset
                 events.insert(0, Ev::CloneHandle);
                 events.insert(0, Ev::CloneHandle);
-                C11Case { total: 0, handles: 0, salt: 0, keep: vec![], threads: false, resume_after: false, invalid_first: false, history: Some(Scenario { receive_max, max_packet_size, id_offset, prologue, events }) }
+                C11Case { total: 0, handles: 0, salt: 0, keep: vec![], threads: false, resume_after: false, invalid_first: false, sub_counter: None, history: Some(Scenario { receive_max, max_packet_size, id_offset, prologue, events }) }
             });
         prop_oneof![1 => long, 400 => hist].boxed()
     }
@@ -130,13 +239,25 @@ impl Property for C11 {
                     history: None,
                     resume_after: true,
                     invalid_first: false,
+                    sub_counter: None,
                 });
             }
         }
         if worker == 1 % _workers.max(1) {
             // handle 0 fails validation first (identifier 1 taken from the counter), handle 1 makes
             // 65 535 allocations; the one that comes round to identifier 1 stays outstanding
-            v.push(C11Case { total: 65_538, handles: 2, salt: 3, keep: vec![(65_534, 60_000), (65_535, 60_000)], threads: false, history: None, resume_after: false, invalid_first: true });
+            v.push(C11Case { total: 65_538, handles: 2, salt: 3, keep: vec![(65_534, 60_000), (65_535, 60_000)], threads: false, history: None, resume_after: false, invalid_first: true, sub_counter: None });
+        }
+        // the far end of the subscription identifier space (and its encoding boundaries on the way)
+        let starts = [
+            125u32, 16_381, 65_533, 2_097_149, 2_097_150, 4_194_301, 16_777_213, 134_217_725, 268_435_449, 268_435_452, 268_435_453, 268_435_454, 268_435_455,
+        ];
+        for (k, start) in starts.into_iter().enumerate() {
+            for salt in [0u32, 0x55, 0xff] {
+                if (k + salt as usize) % _workers.max(1) == worker {
+                    v.push(C11Case { total: 0, handles: 2, salt, keep: vec![], threads: false, history: None, resume_after: false, invalid_first: false, sub_counter: Some(start) });
+                }
+            }
         }
         Box::new(v.into_iter())
     }
@@ -149,6 +270,7 @@ impl Property for C11 {
         vec![
             "the property's proviso holds by construction: every kept operation is acknowledged before 65000 further identifiers are allocated".into(),
             "single task; the multi-thread clause is not decided (schedule not owned)".into(),
+            "subscription identifiers: the space has 2^28 - 1 values, so two subscribe() calls are required to get different identifiers only when fewer than 2^25 calls apart (the hook moves the counter as if that many calls had been made)".into(),
         ]
     }
 
@@ -170,6 +292,9 @@ impl Property for C11 {
             o.nontrivial = out.stats.max_outstanding_ops >= 2 && refused >= 1;
             o.fail = super::simprops::failure_for(&out, &["C11/"]);
             return o;
+        }
+        if let Some(start) = case.sub_counter {
+            return run_c11_sub_ids(start, case.salt);
         }
         if case.threads {
             return run_c11_threads(case);
